@@ -245,3 +245,82 @@ func verifC10GroupingReach() {
 	verifObserve("grouping", v, got[0].GetCardinality(), got[0].Contains(v))
 	verifAssert(!got[0].Contains(v), "reach")
 }
+
+func (s *verifGrpSnapshot) Load(key uint32, loader func(value []byte) error) error {
+	for _, f := range s.files {
+		if v, ok := f[key]; ok {
+			if err := loader(v); err != nil {
+				return err
+			}
+		}
+	}
+	return nil
+}
+
+// C10 (posting lists while the index is in memory, being flushed, flushed): the real invertedIndex
+// (put, prepareFlush, flush through the real inverted index flusher, getSeriesIDs,
+// findSeriesIDsByKeys over the mutable part, the part being flushed and the flushed files) for four
+// series in two containers, each with one of two tag value ids (four patterns) and written in one of
+// three phases - before a completed flush, before a prepared flush that has not run, after it (every
+// combination, so one tag value can have series in all three places at once). The series selected
+// for a tag value id, or for a set of them, are exactly the series that carry it.
+func verifC10Inverted() {
+	n := len(verifGrpSeries)
+	vals := [][]uint32{{10, 10, 10, 10}, {10, 20, 10, 20}, {10, 10, 20, 20}, {20, 10, 10, 10}}[verifChoose("tagValuesOfSeries", 4)]
+	var when [4]int
+	for i := 0; i < n; i++ {
+		when[i] = verifChoose("phaseOfSeries", 3)
+	}
+	fam := &verifGrpFamily{}
+	ii := newInvertedIndex(fam)
+	put := func(phase int) {
+		for i := 0; i < n; i++ {
+			if when[i] == phase {
+				ii.put(vals[i], verifGrpSeries[i])
+			}
+		}
+	}
+	put(0)
+	ii.prepareFlush()
+	verifAssert(ii.flush() == nil, "flush succeeds")
+	put(1)
+	ii.prepareFlush()
+	put(2)
+	for _, keys := range [][]uint32{{10}, {20}, {10, 20}} {
+		want := roaring.New()
+		for i := 0; i < n; i++ {
+			for _, k := range keys {
+				if vals[i] == k {
+					want.Add(verifGrpSeries[i])
+				}
+			}
+		}
+		got, err := ii.findSeriesIDsByKeys(roaring.BitmapOf(keys...))
+		verifAssert(err == nil, "posting lists are read")
+		if err == nil {
+			verifAssert(got.Equals(want), "the series selected for a set of tag value ids are exactly the series that carry one of them")
+		}
+		if len(keys) == 1 {
+			one, err := ii.getSeriesIDs(keys[0])
+			verifAssert(err == nil, "posting list is read")
+			if err == nil {
+				verifAssert(one.Equals(want), "the series selected for a tag value id are exactly the series that carry it")
+			}
+		}
+	}
+	// everything flushed: same answers
+	verifAssert(ii.flush() == nil, "second flush succeeds")
+	ii.prepareFlush()
+	verifAssert(ii.flush() == nil, "third flush succeeds")
+	for _, k := range []uint32{10, 20} {
+		want := roaring.New()
+		for i := 0; i < n; i++ {
+			if vals[i] == k {
+				want.Add(verifGrpSeries[i])
+			}
+		}
+		one, err := ii.getSeriesIDs(k)
+		verifAssert(err == nil && one.Equals(want), "after everything was flushed the series of a tag value id are still exactly the series that carry it")
+	}
+	verifReach("end")
+}
